@@ -614,7 +614,13 @@ impl SubscriptionActor {
 //@ ensures[C05] request is ModifyDeadline ==> turn_ok(old(self)@, request, final(self)@, old(self).ack_deadline())
 //@ ensures[C11] request is Delete ==> turn_ok(old(self)@, request, final(self)@, old(self).ack_deadline())
 //@ ensures[C02] (request is GetInfo || request is GetStats) ==> turn_ok(old(self)@, request, final(self)@, old(self).ack_deadline())
-//@ proof-after[C03] /let result = self\.pull_messages\(max_count\);/ { if !old(self)@.deleted { assert(pull_result_ok(result.unwrap()@, old(self)@, max_count, old(self).ack_deadline())); } }
+//@ ghost-before /self\.post_messages\(messages\);/ let ghost posted = messages@;
+//@ proof-after[C01] /self\.post_messages\(messages\);/ { if !old(self)@.deleted { assert(self@ =~= (SubView { backlog: old(self)@.backlog + posted, ..old(self)@ })); } }
+//@ ghost-before /let result = self\.acknowledge_messages\(ack_ids\);/ let ghost acked = ack_ids@;
+//@ proof-after[C02] /let result = self\.acknowledge_messages\(ack_ids\);/ { if !old(self)@.deleted { assert(self@ =~= (SubView { out: old(self)@.out.remove_keys(acked.to_set()), ..old(self)@ })); } }
+//@ ghost-before /let result = self\.modify_deadline\(deadline_modifications\);/ let ghost mods = deadline_modifications@;
+//@ proof-after[C05] /let result = self\.modify_deadline\(deadline_modifications\);/ { if !old(self)@.deleted { assert(self@ =~= modify_view(old(self)@, mods)); } }
+//@ proof-after[C03] /let result = self\.pull_messages\(max_count\);/ { if !old(self)@.deleted { assert(pull_result_ok(result.unwrap()@, old(self)@, max_count, old(self).ack_deadline())); assert(self@ =~= pull_view(old(self)@, result.unwrap()@)); } }
 //@end
 
 //@fn src/subscriptions/subscription_actor.rs SubscriptionActor::get_info tags=C10
@@ -642,7 +648,10 @@ impl SubscriptionActor {
 //@ # C04: every deadline = hand-out instant + subscription ack deadline (within the rounding slack)
 //@ ensures[C04] !old(self)@.deleted ==> exists|now: Instant| pulled_deadlines(r.unwrap()@, now.v(), old(self).ack_deadline())
 //@ # C03: hand-out moves backlog -> outstanding in the same turn; nothing else changes
-//@ ensures[C03] !old(self)@.deleted ==> final(self)@ == pull_view(old(self)@, r.unwrap()@)
+//@ ensures[C03] !old(self)@.deleted ==> final(self)@.backlog =~= old(self)@.backlog.skip(r.unwrap()@.len() as int)
+//@ # every handed-out message is tracked as outstanding under its ack id (else it could never be redelivered: C01, C04)
+//@ ensures[C01,C04] !old(self)@.deleted ==> final(self)@.out =~= out_after_pull(old(self)@, r.unwrap()@)
+//@ ensures[C03] !old(self)@.deleted ==> final(self)@.next == old(self)@.next + r.unwrap()@.len() && !final(self)@.deleted
 //@ loop 1 invariant[C03] self.inv(), !self.deleted, self.ack_deadline() == old(self).ack_deadline()
 //@ loop 1 invariant[C04] deadline.v() == now.v() + old(self).ack_deadline()
 //@ loop 1 invariant[C15] capacity == pull_cap(old(self)@.backlog.len() as int, max_count)
@@ -651,7 +660,7 @@ impl SubscriptionActor {
 //@ loop 1 invariant[C03] pulled_ids(result@, old(self)@)
 //@ loop 1 invariant[C04] pulled_deadlines(result@, now.v(), old(self).ack_deadline())
 //@ loop 1 invariant[C08] self@.backlog =~= old(self)@.backlog.skip(result@.len() as int)
-//@ loop 1 invariant[C03] self@.out =~= out_after_pull(old(self)@, result@)
+//@ loop 1 invariant[C01,C04] self@.out =~= out_after_pull(old(self)@, result@)
 //@ loop 1 invariant[C03] self@.next == old(self)@.next + result@.len()
 //@ loop 1 invariant[C04] epoch().v() <= now.v() <= now_max()
 //@ loop 1 invariant[C03] old(self)@.next + old(self)@.backlog.len() < u64::MAX
@@ -671,8 +680,8 @@ impl SubscriptionActor {
 //@ ensures r.is_ok()
 //@ ensures[C11] old(self)@.deleted ==> final(self)@ == old(self)@
 //@ # C02: exactly the named live leases leave `out`; backlog, counter and every other lease are untouched
-//@ ensures[C02] !old(self)@.deleted ==> final(self)@ == (SubView { out: old(self)@.out.remove_keys(ack_ids@.to_set()), ..old(self)@ })
-//@ proof-before /^\s*Ok\(\(\)\)\s*$/ { assert(self@.out =~= old(self)@.out.remove_keys(ack_ids@.to_set())); }
+//@ ensures[C02] !old(self)@.deleted ==> final(self)@.out =~= old(self)@.out.remove_keys(ack_ids@.to_set())
+//@ ensures[C02] !old(self)@.deleted ==> final(self)@.backlog == old(self)@.backlog && final(self)@.next == old(self)@.next && !final(self)@.deleted
 //@end
 
 //@fn src/subscriptions/subscription_actor.rs SubscriptionActor::modify_deadline tags=C05
@@ -682,11 +691,12 @@ impl SubscriptionActor {
 //@ ensures r.is_ok()
 //@ ensures[C11] old(self)@.deleted ==> final(self)@ == old(self)@
 //@ # C05: deadlines replaced / nacked leases go back to the end of the backlog in the same turn
-//@ ensures[C05] !old(self)@.deleted ==> final(self)@ == modify_view(old(self)@, deadline_modifications@)
+//@ ensures[C05] !old(self)@.deleted ==> final(self)@.out =~= modify_view(old(self)@, deadline_modifications@).out
+//@ ensures[C05] !old(self)@.deleted ==> final(self)@.backlog =~= modify_view(old(self)@, deadline_modifications@).backlog
+//@ ensures[C05] !old(self)@.deleted ==> final(self)@.next == old(self)@.next && !final(self)@.deleted
 //@ closure 1 ret msg: Arc<TopicMessage>
 //@ closure 1 ensures msg == m.msg()
 //@ proof-after /let nacks = self\.outstanding\.modify/ { lemma_apply_mods_inv(ModState { out: old(self)@.out, nacked: Seq::empty() }, deadline_modifications@, old(self)@.next); }
-//@ proof-before /^\s*Ok\(\(\)\)\s*$/ { assert(self@.backlog =~= modify_view(old(self)@, deadline_modifications@).backlog); }
 //@end
 
 //@fn src/subscriptions/subscription_actor.rs SubscriptionActor::handle_expired_messages tags=C04
@@ -720,7 +730,8 @@ impl SubscriptionActor {
 //@ requires old(self).inv()
 //@ ensures final(self).inv()
 //@ ensures[C11] old(self)@.deleted ==> final(self)@ == old(self)@
-//@ ensures[C01,C08] !old(self)@.deleted ==> final(self)@ == (SubView { backlog: old(self)@.backlog + new_messages@, ..old(self)@ })
+//@ ensures[C01,C08] !old(self)@.deleted ==> final(self)@.backlog =~= old(self)@.backlog + new_messages@
+//@ ensures[C01] !old(self)@.deleted ==> final(self)@.out == old(self)@.out && final(self)@.next == old(self)@.next && !final(self)@.deleted
 //@end
 }
 
